@@ -18,7 +18,7 @@ EXEC_INVS = ["C01", "C02", "C03", "C04", "C09", "PipeMatchesList", "SlotStack", 
 MODEL_SECOND_REAPER = False  # the Popen object is kept alive in the handle (D7 repaired)
 
 
-def exec_cfg(name, n, kinds, maxjobs, stops, launchfail, second_reaper, invs=EXEC_INVS, liveness=True):
+def exec_cfg(name, n, kinds, maxjobs, stops, launchfail, second_reaper, invs=EXEC_INVS, liveness=True, allow_abort=False):
     path = os.path.join(C.SPECS, name)
     with open(path, "w") as f:
         f.write("CONSTANT N = %d\n" % n)
@@ -29,6 +29,7 @@ def exec_cfg(name, n, kinds, maxjobs, stops, launchfail, second_reaper, invs=EXE
         f.write("CONSTANT ExitCodes = {0, 1}\n")
         f.write("CONSTANT LaunchFail = %s\n" % ("TRUE" if launchfail else "FALSE"))
         f.write("CONSTANT SecondReaper = %s\n" % ("TRUE" if second_reaper else "FALSE"))
+        f.write("CONSTANT AllowAbort = %s\n" % ("TRUE" if allow_abort else "FALSE"))
         f.write("SPECIFICATION Spec\n")
         for i in invs:
             f.write("INVARIANT %s\n" % i)
@@ -42,7 +43,7 @@ def model_check(rep, tier, prop, second_reaper):
     """TLC on Executor.tla. Returns (TlcResult, violated invariant names)."""
     if tier == "quick":
         cfg = exec_cfg("_gen_Exec_%s.cfg" % prop, 3, ["exp", "cmd", "group"], 2, [False, True], True, second_reaper)
-        res = C.run_tlc("Executor.tla", cfg=cfg, timeout=240)
+        res = C.run_tlc("Executor.tla", cfg=cfg, timeout=1200)
     else:
         cfg = exec_cfg("_gen_Exec_%s.cfg" % prop, 3, ["exp", "cmd", "group", "combine"], 3, [False, True], True,
                        second_reaper)
